@@ -195,3 +195,173 @@ pub fn check(c: &Cfg, t: &Tables, payload: &[u8], df: bool, mf: bool, off: u16, 
     }
     Outcome::Ok
 }
+
+fn with_frag6<R>(f: Option<(bool, u16)>, g: impl FnOnce() -> R) -> R {
+    V6_FRAG.with(|c| c.set(f));
+    let r = g();
+    V6_FRAG.with(|c| c.set(None));
+    r
+}
+
+/// The same differential for `ip(IpHeaders::Ipv6(..))` with a fragment header whose M flag / offset fragment the
+/// payload. `frag_pos` = offset of the fragment header from the start of the IPv6 header.
+pub fn check_v6(c: &Cfg, t: &Tables, payload: &[u8], mf: bool, off: u16, frag_pos: usize, case: &mut Case) -> Outcome {
+    let plen = payload.len();
+    let l = lens(c, t);
+    let fr = Some((mf, off));
+
+    case.at("PacketBuilderStep::write");
+    let a = make(c, t);
+    let mut oa: Vec<u8> = vec![];
+    case.eval();
+    let ra = guarded(|| a.write(&mut oa, payload));
+    case.at("PacketBuilderStep::size");
+    let b = with_frag6(fr, || make(c, t));
+    case.eval();
+    let size = guarded(|| b.size(plen));
+    case.at("PacketBuilderStep::write");
+    let mut o1: Vec<u8> = vec![];
+    case.eval();
+    let r1 = guarded(|| b.write(&mut o1, payload));
+    case.at("PacketBuilderStep::write_to_vec");
+    let mut o2: Vec<u8> = VEC_PREFIX.to_vec();
+    let b2 = with_frag6(fr, || make(c, t));
+    case.eval();
+    let r2 = guarded(|| b2.write_to_vec(&mut o2, payload));
+    let size = match size {
+        Ok(s) => s,
+        Err(p) => {
+            case.fail(format!("panic:size:{}", ploc(&p)), format!("size({}) panicked: {}", plen, p));
+            return Outcome::Bad;
+        }
+    };
+    case.at("PacketBuilderStep::write_to_slice");
+    let mut o3 = vec![0xaau8; size.min(1 << 18)];
+    let b3 = with_frag6(fr, || make(c, t));
+    case.eval();
+    let r3 = guarded(|| b3.write_to_slice(&mut o3, payload));
+    let (ra, r1, r2, r3) = match (ra, r1, r2, r3) {
+        (Ok(a), Ok(b), Ok(c), Ok(d)) => (a, b, c, d),
+        (a, b, c, d) => {
+            let p = a.err().or(b.err()).or(c.err()).or(d.err()).unwrap_or_default();
+            case.fail(format!("panic:writer:{}", ploc(&p)), format!("a writer panicked instead of returning a result: {}", p));
+            return Outcome::Bad;
+        }
+    };
+    if o2.len() < 3 || o2[..3] != VEC_PREFIX {
+        case.fail("write_to_vec:clobbers-existing-content", format!("the 3 bytes that were in the Vec before are now {}", hex(&o2[..o2.len().min(3)])));
+        return Outcome::Bad;
+    }
+    let o2 = &o2[3..];
+    match (&ra, &r1, &r2, &r3) {
+        (Err(ea), Err(e1), Err(_), Err(_)) => {
+            if ea.0 != e1.0 {
+                case.fail("fragment-fields-change-the-error", format!("unfragmented sibling -> Err({}), with M {} offset {} -> Err({})", ea.1, mf, off, e1.1));
+                return Outcome::Bad;
+            }
+            return Outcome::Err("payload-too-big-ipv6");
+        }
+        (Ok(()), Ok(()), Ok(()), Ok(n3)) => {
+            if o1.len() != size || o2.len() != size || *n3 != size {
+                case.fail("size-differs-from-written:fragmenting", format!("size({}) = {} but write produced {}, write_to_vec {}, write_to_slice {} bytes", plen, size, o1.len(), o2.len(), n3));
+                return Outcome::Bad;
+            }
+            if o1[..] != o2[..] || o1[..] != o3[..size] {
+                case.fail("writers-produce-different-bytes:fragmenting", "write, write_to_vec and write_to_slice do not give identical bytes".to_string());
+                return Outcome::Bad;
+            }
+        }
+        _ => {
+            let f = |ok: bool| if ok { "Ok" } else { "Err" };
+            case.fail(
+                "fragment-fields-change-success",
+                format!("unfragmented sibling -> {}, with M {} offset {}: write -> {}, write_to_vec -> {}, write_to_slice -> {}", f(ra.is_ok()), mf, off, f(r1.is_ok()), f(r2.is_ok()), f(r3.is_ok())),
+            );
+            return Outcome::Bad;
+        }
+    }
+
+    let ip = l.link + l.vlan;
+    let w = ip + frag_pos + 2;
+    if o1.len() != oa.len() {
+        case.fail("fragment-fields-change-the-size", format!("{} bytes instead of the {} of the unfragmented sibling", o1.len(), oa.len()));
+        return Outcome::Bad;
+    }
+    if let Some(at) = (0..o1.len()).find(|&i| o1[i] != oa[i] && !(w..w + 2).contains(&i)) {
+        case.fail(
+            "fragment-fields-change-other-bytes",
+            format!("byte {} (IPv6 header starts at {}, fragment header at {}) is {:#04x} but {:#04x} in the sibling with offset 0 / M 0; only the offset/M word may differ", at, ip, ip + frag_pos, o1[at], oa[at]),
+        );
+        return Outcome::Bad;
+    }
+    let want = (off << 3) | mf as u16;
+    let got = u16::from_be_bytes([o1[w], o1[w + 1]]);
+    if got != want {
+        case.fail("not-recovered:ipv6-fragment-fields", format!("supplied M {} offset {} = word {:#06x}, written {:#06x}", mf, off, want, got));
+        return Outcome::Bad;
+    }
+
+    let who = match c.link {
+        LinkC::None => "SlicedPacket::from_ip",
+        LinkC::Eth => "SlicedPacket::from_ethernet",
+        LinkC::Sll(_) => "SlicedPacket::from_linux_sll",
+    };
+    case.at(who);
+    case.eval();
+    let parsed = guarded(|| match c.link {
+        LinkC::None => SlicedPacket::from_ip(&o1).map_err(|e| format!("{:?}", e)),
+        LinkC::Eth => SlicedPacket::from_ethernet(&o1).map_err(|e| format!("{:?}", e)),
+        LinkC::Sll(_) => SlicedPacket::from_linux_sll(&o1).map_err(|e| format!("{:?}", e)),
+    });
+    let sp = match parsed {
+        Ok(Ok(sp)) => sp,
+        Ok(Err(e)) => {
+            case.fail("strict-parser-rejects-built-packet:fragmenting", format!("{} -> Err({})", who, truncate(&e, 300)));
+            return Outcome::Bad;
+        }
+        Err(p) => {
+            case.fail(format!("panic:parse:{}", ploc(&p)), format!("{} panicked: {}", who, p));
+            return Outcome::Bad;
+        }
+    };
+    let v6 = match &sp.net {
+        Some(NetSlice::Ipv6(s)) => s,
+        other => {
+            case.fail("crate:layer-sequence-differs:fragmenting", format!("net slice is {}", truncate(&format!("{:?}", other), 200)));
+            return Outcome::Bad;
+        }
+    };
+    let mut seen = None;
+    for e in v6.extensions().clone().into_iter() {
+        if let Ipv6ExtensionSlice::Fragment(f) = e {
+            seen = Some((f.more_fragments(), f.fragment_offset().value(), f.identification()));
+        }
+    }
+    if seen != Some((mf, off, FRAG_ID)) {
+        case.fail("crate:not-recovered:ipv6-fragment-fields", format!("supplied M {} offset {} id {:#x}, parsed (M, offset, id) = {:?}", mf, off, FRAG_ID, seen));
+        return Outcome::Bad;
+    }
+    let pl = v6.payload();
+    if !pl.fragmented || !v6.is_payload_fragmented() {
+        case.fail("crate:fragmenting-header-not-flagged", format!("M {} offset {} but payload.fragmented = {}", mf, off, pl.fragmented));
+        return Outcome::Bad;
+    }
+    if sp.transport.is_some() {
+        case.fail("crate:transport-decoded-from-fragment", format!("M {} offset {} but a transport slice was produced", mf, off));
+        return Outcome::Bad;
+    }
+    // reading: the crate keeps slicing extension headers behind a fragmenting fragment header; the payload slice may
+    // therefore start anywhere between the end of the fragment header and the transport header, but it must be the
+    // tail of the packet
+    let n = pl.payload.len();
+    let behind_frag = o1.len() - (ip + frag_pos + 8);
+    if n > behind_frag || n < l.thdr + plen || pl.payload != &o1[o1.len() - n..] {
+        case.fail("crate:payload-not-recovered:fragmenting", format!("payload slice has {} bytes; {} bytes follow the fragment header, transport header + payload are {}", n, behind_frag, l.thdr + plen));
+        return Outcome::Bad;
+    }
+    if &o1[o1.len() - plen..] != payload {
+        case.fail("payload-not-recovered:fragmenting", "the supplied payload is not at the end of the packet".to_string());
+        return Outcome::Bad;
+    }
+    Outcome::Ok
+}
